@@ -221,7 +221,7 @@ class Check:
                 if trs and rng.random() < 0.5:
                     n["mtime"] = (rng.choice(trs) + rng.choice([-3600, -1800, -1, 0, 1, 900, 1800, 3599, 3600, 5400])) * 10 ** 9
         return {"world": world, "roots": roots, "keys": keys, "selected": selected, "positional": positional, "where": where, "plan": plan,
-                "order_class": cls, "tz": tz}
+                "order_class": cls, "tz": tz, "session": rng.random() < 0.08}
 
     def sample_view(self, case):
         c = dict(case)
@@ -236,6 +236,10 @@ class Check:
                 c["positional"].pop(i)
                 c["selected"] = [s for s in c["selected"] if s != k["key"]]
                 yield c
+        if case.get("session"):
+            c = copy.deepcopy(case)
+            c["session"] = False
+            yield c
         if case["where"]:
             c = copy.deepcopy(case)
             c["where"] = None
@@ -279,6 +283,19 @@ class Check:
             if len(ctx.samples) < 2:
                 ctx.samples.append({"argv": [q1], "unordered": q0, "outcome": r1.summary()})
             ksig = "+".join(KEYS[k["key"]] + ("-" if k["desc"] else "") for k in keys)
+            if case.get("session") and not case["plan"].get("tty") and not any(c in q1 for c in "\n\r"):
+                # the same query as the second one of an interactive session (`fselect -i`, queries on standard input), after an
+                # ordered query whose keys are of another kind: nothing may be carried over from one query to the next
+                kp = "size" if KEYS[keys[0]["key"]] != "num" else "name"
+                qp = "select path" + fromc + " order by %s, path into list" % kp
+                rp = sb.run([qp], plan=case["plan"], tz=case["tz"])
+                rs = sb.run(["-i"], plan=case["plan"], tz=case["tz"], stdin_text=qp + "\n" + q1 + "\nexit\n")
+                if not (rp.sim or rp.status != 0 or r1.sim or r1.status != 0):
+                    if rs.sim or rs.signal is not None or rs.stdout != rp.stdout + r1.stdout:
+                        viols.append(Violation(PROP, "C05.session", ["C05.session", "second_query_of_a_session_differs", ksig],
+                                               {"first": qp, "second": q1, "outcome": rs.summary(), "one_shot_bytes": len(rp.stdout) + len(r1.stdout), "session_bytes": len(rs.stdout)}))
+                        return viols
+                    ctx.metric("sessions")
             for r, q in ((r0, q0), (r1, q1)):
                 if r.sim or r.status != 0 or r.signal is not None:
                     viols.append(Violation(PROP, "C05.run", ["C05.run", "abnormal_end", ksig], {"query": q, "outcome": r.summary()}))
